@@ -57,6 +57,8 @@ def resolve_global(ex, fname, name):
     return VPy('recclass', name)
   mods = ex.repo.module_functions(fname)
   if name in mods:
+    if f'{fname}::{name}#ctor' in C.REGISTRY and ex.contract.strings != 'native':
+      return VPy('func', f'{fname}::{name}#ctor')
     return VPy('func', f'{fname}::{name}')
   if name in MODULES:
     return VPy('module', name)
@@ -414,6 +416,8 @@ def call_builtin(ex, name, args, kwargs, node):
   if name == 'dict':
     if not args and not kwargs:
       return VPy('emptydict')
+    if len(args) == 1 and isinstance(args[0], VList):
+      return VObj(sym.ufun('dict_of_items', sym.Val, sym.Val)(sym.to_val(args[0])))
   if name == 'set':
     if not args:
       return VPy('emptyset')
@@ -625,6 +629,18 @@ def _list_method(ex, obj, name, args, kwargs, node):
       obj.arr = name_array(ex, obj.arr, 'ext')
       obj._wb()
       return NONE
+  if name == 'extendleft' and isinstance(args[0], VList):
+    # deque.extendleft(xs): the items end up in front, in REVERSED order
+    front = args[0].reversed()
+    front = VList(front.kind, front.len, front.arr)
+    front.extend(obj)
+    obj._mutate()
+    obj.len, obj.arr = front.len, name_array(ex, front.arr, 'extl')
+    obj._wb()
+    return NONE
+  if name == 'popleft':
+    args = [VInt(0)]
+    name = 'pop'
   if name == 'pop':
     if not args:
       if not ex.path.decide(obj.len > 0):
